@@ -94,7 +94,7 @@ def run_kernel(kernel: str, repo: str, workdir: str, rlimit=None, timeout=900, c
     res['per_function'] = [dict(function=f['function'].split('::', 1)[-1], ms=f.get('time'), ok=f.get('success')) for f in fb]
     res['verified'] = vr.get('verified', 0)
     res['errors'] = vr.get('errors', 0)
-    if vr.get('encountered-vir-error') or (not diags and not vr.get('success') and vr.get('errors', 0) == 0):
+    if vr.get('encountered-vir-error') or (not vr.get('success') and vr.get('errors', 0) == 0 and vr.get('verified', 0) == 0):
         # type / mode / unsupported-construct error: not a verdict on the property
         msgs = [json.loads(l).get('message') for l in p.stderr.split('\n') if l.strip().startswith('{') and '"level":"error"' in l]
         res.update(status='undecided', reason='verus front-end error: ' + '; '.join(m for m in msgs[:3] if m), seconds=round(time.time() - t0, 1))
